@@ -722,6 +722,11 @@ class StructureVisitor(ASTTemplate):
         for name, comp in right_ds.components.items():
             if comp.role == Role.IDENTIFIER and name not in comps:
                 comps[name] = comp
+        # Viral attributes of either operand are carried by the result
+        for operand_ds in (left_ds, right_ds):
+            for name, comp in operand_ds.components.items():
+                if comp.role == Role.VIRAL_ATTRIBUTE and name not in comps:
+                    comps[name] = comp
 
         return Dataset(name=left_ds.name, components=comps, data=None)
 
